@@ -74,6 +74,11 @@ def _directives(text):
         m = re.match(r"^#\s*cython:\s*(\w+)\s*=\s*(\w+)", line.strip())
         if m and m.group(1) in d:
             d[m.group(1)] = m.group(2).lower() == "true"
+    # decorator form (per function; the shim applies it to the whole file, which can
+    # only make it stricter: more indices are trapped, never fewer)
+    for key in d:
+        if re.search(r"^\s*@cython\." + key + r"\(\s*False\s*\)", text, re.M):
+            d[key] = False
     return d
 
 
@@ -351,6 +356,8 @@ def translate(text, modname="?"):
             types_stack.pop()
         if re.match(r"^(from\s+\S+\s+)?cimport\b", body):
             continue
+        if re.match(r"^@cython\.\w+(\(.*\))?$", body) or re.match(r"^@cython\.\w+$", body):
+            continue          # compiler directives given as decorators
         if body.startswith("ctypedef") or re.match(r"^DEF\s", body):
             continue
         if body in ("cdef:", "cdef nogil:"):
